@@ -52,11 +52,21 @@ def model_windows(n: int, interval_min: float, margin_min: float):
     return I, slot, m, out
 
 
-def runners(n: int):
+def runners(n: int, hist: tuple[float | None, ...] = ()):
+    """hist[i] = duration in seconds of runner i's last recorded service execution (None: no history)."""
+    from datetime import timedelta
+
     from pynenc.orchestrator.atomic_service import ActiveRunnerInfo
 
     t0 = datetime(2024, 1, 1, tzinfo=UTC)
-    return [ActiveRunnerInfo(f"r{i}", t0, t0, True) for i in range(n)]
+    out = []
+    for i in range(n):
+        d = hist[i % len(hist)] if hist else None
+        if d is None:
+            out.append(ActiveRunnerInfo(f"r{i}", t0, t0, True))
+        else:
+            out.append(ActiveRunnerInfo(f"r{i}", t0, t0, True, t0, t0 + timedelta(seconds=d)))
+    return out
 
 
 def ask_all(rs, t: float, interval: float, margin: float) -> list[bool]:
@@ -97,17 +107,20 @@ def check_instant(part: Part, rs, n, interval, margin, t: float, I, wins, known,
 
 def grid_shard(configs: list[tuple[int, float]], grid: int, known: list[str]) -> dict:
     part = Part("grid", GRID_RULE, exhaustive=True)
-    for n, interval in configs:
-        rs = runners(n)
+    for n, interval, hist_kind in [(n, iv, hk) for (n, iv) in configs for hk in ("none", "short", "long")]:
+        slot_s = interval * 60 / n
+        # recorded execution history must never change who is authorised when (it only feeds diagnostics)
+        hist = {"none": (), "short": (0.5, None), "long": (slot_s, 3 * slot_s, None)}[hist_kind]
+        rs = runners(n, hist)
         slot_min = interval / n
         margins = [0.0, 1e-9, slot_min / 3, slot_min - 1e-6 / 60, slot_min, 2 * slot_min]
         for margin in margins:
             I, slot, m, wins = model_windows(n, interval, margin)
             If = float(I)
-            for offset_cycles in (0, int(1.7e9 // If), int(1e12 // If)):
+            for offset_cycles in ((0, int(1.7e9 // If), int(1e12 // If)) if hist_kind == "none" else (int(1.7e9 // If),)):
                 base = offset_cycles * If
-                for g in range(grid):
-                    check_instant(part, rs, n, interval, margin, base + (g + 0.37) * If / grid, I, wins, known, "grid")
+                for g in range(grid if hist_kind == "none" else max(40, grid // 10)):
+                    check_instant(part, rs, n, interval, margin, base + (g + 0.37) * If / (grid if hist_kind == "none" else max(40, grid // 10)), I, wins, known, "grid" if hist_kind == "none" else f"grid_hist_{hist_kind}")
                 for cyc in range(3):
                     for s, e in wins:
                         for b in (s, e):
